@@ -336,6 +336,10 @@ func (fox *Router) Lookup(w ResponseWriter, r *http.Request) (route *Route, cc C
 //   - [ErrInvalidRoute]: If the provided method or pattern is invalid.
 //   - [ErrInvalidConfig]: If the provided route options are invalid.
 func (fox *Router) NewRoute(pattern string, handler HandlerFunc, opts ...RouteOption) (*Route, error) {
+	if handler == nil {
+		return nil, fmt.Errorf("%w: nil handler", ErrInvalidRoute)
+	}
+
 	n, endHost, err := fox.parseRoute(pattern)
 	if err != nil {
 		return nil, err
